@@ -282,23 +282,8 @@ def run(facts, rep, tier):
                 continue
             rep.add(Finding("R15.1", "%s : row vector passed to %s" % (sb.name, name),
                             "the -o sort function modifies the row vector with `%s`, which is not a permutation" % name, span_loc(t.get("span"))))
-    # the char switch
-    sw = None
-    for bi in scfg.reach:
-        t = sb.blocks[bi]["term"]
-        if t["k"] == "switch" and t["ty"] == "char":
-            if sw is not None:
-                raise Broken("C15 anchor: more than one match on a char in %s" % sname)
-            sw = (bi, t)
-    if sw is None:
-        raise Broken("C15 anchor: no match on a char in %s" % sname)
-    swbb, swt = sw
-    loops = scfg.loops()
-    inner = [(h, blks) for h, blks in loops.items() if swbb in blks]
-    if not inner:
-        raise Broken("C15 anchor: the char match is not inside a loop")
-    h, lblocks = min(inner, key=lambda x: len(x[1]))
     # R15.4: iteration order: the loops' iterators must be plain (no rev/skip/take)
+    loops = scfg.loops()
     for hh, blks in loops.items():
         for bi in blks:
             t = sb.blocks[bi]["term"]
@@ -317,60 +302,39 @@ def run(facts, rep, tier):
                     rep.add(Finding("R15.4", "%s : -o letters iterated through %s" % (sb.name, "+".join(bad)),
                                     "the -o letters are not applied in the order given (%s): the last letter no longer decides" % bad,
                                     span_loc(t.get("span"))))
-    # the char match must run for every letter of every -o string: it post-dominates the inner loop's item edge
-    inner_next = None
-    for bi in lblocks:
-        t = sb.blocks[bi]["term"]
-        if t["k"] == "call" and t["callee"].get("name") == "next" and bi in lblocks and h in scfg.reachable_from(bi) :
-            if inner_next is None or len([x for x in loops if bi in loops[x]]) >= len([x for x in loops if inner_next in loops[x]]):
-                inner_next = bi
-    if inner_next is not None:
-        # blocks reachable from the `next` call without passing the switch, that can reach the loop's back edge => the match can be skipped
-        r = scfg.reachable_from(sb.blocks[inner_next]["term"]["target"], avoid={swbb})
-        skipped = [a for a, hh in scfg.back_edges() if hh == h and a in r]
-        # (the None edge of `next` leaves the loop, it is not a skip)
-        somes = [x for x in skipped]
-        ok = not somes
-        rep.oblige(ok, ("match-always",))
+    # which permutations of the row vector does ONE letter cause?  The sort function is interpreted abstractly with
+    # -o = that letter and an unknown row vector; the calls of sort*/reverse it reaches are recorded in order.  This follows
+    # any dispatch shape (one match, several matches, to_ascii_lowercase + is_uppercase, helper functions).
+    arms, trace_of = _letter_traces(facts, sb, vparam)
+    # history independence: a letter does the same whatever was applied before it (no "already applied" memo)
+    others = [c for c in "sANd" if c in arms]
+    for ch in sorted(TABLE):
+        o = next((x for x in others if x.lower() != ch.lower()), None)
+        if o is None or ch not in arms:
+            continue
+        got = trace_of(ch + o + ch)
+        want = arms[ch][1] + arms[o][1] + arms[ch][1]
+        ok = got == want
+        rep.oblige(ok, ("history-free", ch))
         if not ok:
             rep.add(Finding("R15.4", "%s : a -o letter can be skipped" % sb.name,
-                            "the per-letter sort is not applied for every letter of -o (a condition can skip the match): the last key letter no longer decides the order",
-                            span_loc(swt.get("span"))))
-    starts = {}
-    for v, b in swt["targets"]:
-        starts[chr(int(v))] = b
-    excl = exclusive_arm_blocks(scfg, list(set(starts.values())), lblocks, h)
-    arms = {}
-    for ch, b in starts.items():
-        calls = []
-        # follow the straight-line chain through exclusive blocks
-        cur = b
-        seen = set()
-        while cur in excl[b] and cur not in seen:
-            seen.add(cur)
-            t = sb.blocks[cur]["term"]
-            if t["k"] == "call":
-                calls.append(t)
-            nxt = [x for x in scfg.succ[cur]]
-            if len(nxt) != 1:
-                break
-            cur = nxt[0]
-        arms[ch] = calls
+                            "-o %s applies %d permutations, but the letters one by one apply %d: what a letter does depends on the "
+                            "letters before it, so the last key letter no longer decides the order" % (ch + o + ch, len(got), len(want)), sb.loc()))
     dirs = {}
     n = 0
     for ch, (field, want_dir, partner) in sorted(TABLE.items()):
         n += 1
-        if ch not in arms:
+        if ch not in arms or not arms[ch][0]:
             rep.oblige(False, ("letter", ch))
             rep.add(Finding("R15.3", "%s : letter %s not handled" % (sb.name, ch), "-o letter %r has no sort" % ch, sb.loc()))
             continue
-        sorts = [t for t in arms[ch] if t["callee"].get("name") in STABLE_SORTS | UNSTABLE_SORTS]
-        revs = [t for t in arms[ch] if t["callee"].get("name") == "reverse"]
+        sorts = [(bd, t) for bd, t in arms[ch][0] if t["callee"].get("name") in STABLE_SORTS | UNSTABLE_SORTS]
+        revs = [t for bd, t in arms[ch][0] if t["callee"].get("name") == "reverse"]
         if len(sorts) != 1:
             rep.oblige(False, ("letter", ch))
             rep.add(Finding("R15.3", "%s : letter %s has %d sorts" % (sb.name, ch, len(sorts)), "-o letter %r: expected one sort" % ch, sb.loc()))
             continue
-        m, f, d, q, why = sort_call_info(facts, sb, sdu, sorts[0])
+        m, f, d, q, why = sort_call_info(facts, sorts[0][0], DefUse(sorts[0][0]), sorts[0][1])
         if len(revs) % 2 == 1:
             d = -d
         dirs[ch] = d
@@ -387,7 +351,7 @@ def run(facts, rep, tier):
             else:
                 msg = "-o %s sorts %s in the wrong direction" % (ch, field)
                 key = "direction"
-            rep.add(Finding("R15.3", "%s : letter %s %s" % (sb.name, ch, key), msg, span_loc(sorts[0].get("span")), {"key": why}))
+            rep.add(Finding("R15.3", "%s : letter %s %s" % (sb.name, ch, key), msg, span_loc(sorts[0][1].get("span")), {"key": why}))
     for ch, (field, want_dir, partner) in TABLE.items():
         if partner and ch < partner and ch in dirs and partner in dirs and dirs[ch] and dirs[partner]:
             ok = dirs[ch] == -dirs[partner]
@@ -440,3 +404,38 @@ def _rooted_at_arg(du, pl, argn):
     if pl is None or argn is None:
         return False
     return _rooted_at(du, pl, argn)
+
+
+def _letter_traces(facts, sb, vparam):
+    """-> ({letter: ([(body, call terminator)], [(body name, bb)])}, trace_of(string))"""
+    from ..absint import k3 as K3
+    from ..absint.ctx import ref_to
+    from ..absint.domain import OpaqueV, StrV, StructV, TupleV, VecV, IntV, Top
+    from ..absint.k2 import args_value
+
+    def trace_of(text):
+        def build(I, st):
+            I.trace_names = set(PERMUTATIONS)
+            av = args_value(facts, {})
+            av = av.set("order_by", VecV([StrV("lit", text=text)]))
+            out = []
+            for i in range(1, sb.arg_count + 1):
+                ty = sb.locals[i]["ty"]["s"]
+                if ty.endswith("Args"):
+                    out.append(ref_to(I, st, av))
+                elif i == vparam:
+                    out.append(ref_to(I, st, VecV(None, IntV("usize"), Top(why="row")), True))
+                else:
+                    out.append(Top(why="arg %d" % i))
+            return out
+        I, v, st = K3.run_fn(facts, sb.name, build, "C15 -o %s" % text)
+        if st is None:
+            raise Broken("C15: the sort function cannot be followed for -o %s" % text)
+        return list(I.trace)
+    arms = {}
+    for code in range(33, 127):
+        ch = chr(code)
+        tr = trace_of(ch)
+        if tr:
+            arms[ch] = ([(facts.bodies[bn], facts.bodies[bn].blocks[bb]["term"]) for bn, bb in tr], tr)
+    return arms, trace_of
